@@ -365,3 +365,112 @@ def int_range_into_enum_checks_every_value(ctx):
                     'members (IntRange(0, 2) into EnumType(a=0, c=2)) is declared compatible although 1 is not a member', f)
         else:
             ctx.undecided(construct, n, 'form of the membership check not recognised', f)
+
+
+def _ctor_none_mapping(m, ci, pname):
+    """how the constructor of ci maps <pname>=None: -> ('const', expr) | ('depends', expr) | None"""
+    init = ci.methods.get('__init__')
+    if init is None:
+        return None
+    others = {a.arg for a in init.node.args.args} - {'self', pname}
+    for n in body_walk(init.node):
+        # if p is None: p = <expr>
+        if isinstance(n, ast.If) and src(n.test) == f'{pname} is None':
+            for st in n.body:
+                if isinstance(st, ast.Assign) and src(st.targets[0]) == pname:
+                    dep = {x.id for x in ast.walk(st.value) if isinstance(x, ast.Name)} & others
+                    return ('depends' if dep else 'const', st.value)
+        # p if p is not None else <expr>
+        if isinstance(n, ast.IfExp) and src(n.test) == f'{pname} is not None':
+            dep = {x.id for x in ast.walk(n.orelse) if isinstance(x, ast.Name)} & others
+            return ('depends' if dep else 'const', n.orelse)
+        if isinstance(n, ast.IfExp) and src(n.test) == f'{pname} is None':
+            dep = {x.id for x in ast.walk(n.body) if isinstance(x, ast.Name)} & others
+            return ('depends' if dep else 'const', n.body)
+    return None
+
+
+@rule('C03.R1b', min_instances=6)
+def omitted_key_means_the_property_default(ctx):
+    """a key that is exported only when it differs from the property default must be rebuilt to exactly that default when
+    it is omitted: the lambda default equals the property default, or it is None and the constructor maps None to a
+    value that does not depend on the other arguments"""
+    m = ctx.m
+    mod, table = _datatypes_table(m)
+    for q in m.subclasses(DT + '.DataType'):
+        ci = m.classes[q]
+        if ci.module.name != DT:
+            continue
+        info = _type_name_and_keys(m, ci)
+        if info is None or info[0] not in table or not info[2]:
+            continue
+        tname, explicit, uses_info, ed = info
+        lam = table[tname]
+        a = lam.args
+        defaults = dict(zip([x.arg for x in a.args][len(a.args) - len(a.defaults):], a.defaults))
+        props = _properties(m, q)
+        for key, dflt in sorted(defaults.items()):
+            p = props.get(key)
+            if p is None or key in explicit or key == 'pname':
+                continue
+            attr, decl, always, stub, has_default = p
+            if always:
+                continue
+            pd = kwarg(decl, 'default')
+            construct = f'{q}:omitted key {key!r} is rebuilt to the property default'
+            ld = m.const(mod, dflt)
+            pdv = m.const(ci.module, pd) if pd is not None else UNKNOWN
+            if ld is not UNKNOWN and ld is not None and pdv is not UNKNOWN:
+                ctx.check(ld == pdv, construct, lam, f'lambda default {ld!r} == property default',
+                          f'the {tname!r} lambda uses {key}={ld!r} for an omitted key, but the property default (the value for which the key is '
+                          f'omitted) is {pdv!r}', ed)
+                continue
+            if isinstance(dflt, ast.Constant) and dflt.value is None:
+                how = _ctor_none_mapping(m, ci, key)
+                if how is None:
+                    ctx.undecided(construct, lam, f'constructor handling of {key}=None not recognised', ed)
+                elif how[0] == 'depends':
+                    ctx.bad(construct, lam, f'for an omitted {key!r} the {tname!r} lambda passes None and the constructor then computes `{src(how[1])}`, which depends on '
+                            f'another argument, while the key is omitted exactly when it equals the property default `{src(pd) if pd is not None else None}`: '
+                            'the rebuilt / copied type has other limits than the exported one (StringType(minchars=5, maxchars=UNLIMITED).copy() '
+                            'accepted exactly 5 characters only)', ed)
+                else:
+                    ctx.ok(construct, lam, f'None is mapped to `{src(how[1])}` independently of the other arguments', ed)
+            else:
+                ctx.undecided(construct, lam, f'default `{src(dflt)}` can not be compared with the property default', ed)
+
+
+@rule('C03.R2b', min_instances=1)
+def enum_type_never_adopts_a_foreign_enum(ctx):
+    """EnumType.__init__ always builds its own Enum object (copy() = EnumType(self._enum) relies on that)"""
+    m = ctx.m
+    f = m.method(f'{DT}.EnumType', '__init__', inherited=False)
+    ctx.analysed(f)
+    params = {a.arg for a in f.node.args.args}
+    stores = [(t, v, s) for t, v, s in attr_stores(f.node) if t.attr == '_enum' and dotted(t.value) == 'self']
+    if not stores:
+        raise AnchorMissing('store of self._enum not found in EnumType.__init__')
+    for t, v, s in stores:
+        fresh = isinstance(v, ast.Call) and dotted(v.func) == 'Enum'
+        ctx.check(fresh, f'{f.qualname}:store self._enum', s, 'a new Enum(...) is built',
+                  f'`{src(s)}` adopts the Enum object that was passed in: EnumType.copy() (= EnumType(self._enum)) then shares the enum with the '
+                  'original - set_name() on the copy (done by Parameter.__set_name__) renames the original too', f)
+
+
+@rule('C03.R3b', min_instances=1)
+def struct_compatible_checks_every_member(ctx):
+    """StructOf.compatible checks every own member against the other struct (no member is skipped)"""
+    m = ctx.m
+    f = m.method(f'{DT}.StructOf', 'compatible', inherited=False)
+    ctx.analysed(f)
+    loops = [n for n in body_walk(f.node) if isinstance(n, ast.For) and src(n.iter).startswith('self.members')]
+    if not loops:
+        raise AnchorMissing('loop over self.members not found in StructOf.compatible')
+    for l in loops:
+        calls = [c for c in calls_in(l) if call_attr(c) == 'compatible']
+        skips = [x for st in l.body for x in walk_local(st) if isinstance(x, ast.Continue)]
+        cond = [c for c in calls if any(isinstance(a, ast.If) and any(a is y for y in ast.walk(l)) for a in ancestors(c))]
+        ctx.check(bool(calls) and not skips and not cond, f'{f.qualname}:every member is checked', l,
+                  'member.compatible(other.members[k]) is called unconditionally for every member',
+                  'a member is skipped (continue / conditional call): a value carrying that member is valid for this struct but '
+                  'refused by the other one although compatible() passed', f)
